@@ -2,7 +2,7 @@
     Only statements here; proofs are in Proofs/HostsProofs.v.  [V1] is the code after the
     two fix: commits of this property (chain following in get_host, IPv6 loopback test);
     [V0] is the snapshot. *)
-From KV Require Import Bytes Hosts HostsProofs.
+From KV Require Import Bytes CacheX HostsPipe HostsPipeProofs Hosts HostsProofs.
 Open Scope N_scope.
 
 (** Routing = reference resolver.  For every sequence of builder calls that does not
@@ -123,22 +123,169 @@ Theorem server_step_routes_by_reference : forall (St P Rep : Type) (serve : nat 
   = Ok (rstep St (srequest P) Rep (spec_serve St P Rep serve) (spec_route P ops) refuse st r).
 Proof. exact server_step_spec. Qed.
 
-(** HTTP/1.1 histories over plain TCP as exercised by the correspondence: model of the code
-    = specification server, for every history, unless a request has no Host header while no
-    default host is configured (known class absent-host-closed: the connection is closed
-    without an answer instead of a 409). *)
-Theorem connection_histories_eq_spec : forall (ops : list op) (c : collection),
-  build ops = Ok c ->
-  forall (reqs : list (list bytes * bytes)) (st : nat -> hstate),
-  Forall (fun r => fst r <> [] \/ default_index O ops <> None) reqs ->
-  conn_history V1 c st reqs = map Ok (conn_spec ops st reqs).
-Proof. exact conn_history_spec. Qed.
+(** ---- histories over loopback connections: plain HTTP/1.x, HTTP/1.1 over TLS, HTTP/2 over TLS ----
+    [wire_history auth_ok fixed c st reqs] is the model of today's code ([handle_connection] with the
+    TLS certificate resolver, [kvarn_async::read::request], [get_from_request], the per-host marker
+    handlers and response caches); [auth_ok] stands for [http::uri::Authority::try_from], of which only
+    "accepts nothing but text" is used.  For EVERY configuration and EVERY history — any mix of
+    connections, SNI values, Host lines, [:authority], methods and conditional requests — none of whose TLS
+    connections is refused during the handshake (known class tls-handshake-refused), the replies are those
+    of the specification server: the product of the per-host handlers and caches, routed by the reference
+    resolver from the SNI of the connection if there is one, else from the Host header. *)
+Theorem wire_histories_eq_spec : forall (auth_ok : bytes -> bool),
+  (forall h, auth_ok h = true -> is_text h) ->
+  forall (ops : list op) (c : collection), build ops = Ok c ->
+  forall (reqs : list wreq) (st : nat -> hstate),
+  Forall (fun r => wf_wreq r /\ tls_refused ops r = false) reqs ->
+  wire_history auth_ok fixed c st reqs = map Ok (wire_spec ops st reqs).
+Proof. exact wire_history_spec. Qed.
 
-Theorem absent_host_refuted :
-  exists ops c p, build ops = Ok c /\
-    conn_history V1 c (fun _ => hstate0) [([], p)] = [Ok WClosed] /\
-    conn_spec ops (fun _ => hstate0) [([], p)] = [W409].
+(** ... in particular with the [http] crate's authority parser as transcribed (and validated by the differential
+    run) for C07 — the function the executable model runs: no hypothesis about the parser is left. *)
+Theorem wire_histories_eq_spec_http : forall (ops : list op) (c : collection), build ops = Ok c ->
+  forall (reqs : list wreq) (st : nat -> hstate),
+  Forall (fun r => wf_wreq r /\ tls_refused ops r = false) reqs ->
+  wire_history auth_ok_http fixed c st reqs = map Ok (wire_spec ops st reqs).
+Proof. exact wire_history_spec_http. Qed.
+
+(** The SNI of the connection decides: with an SNI, Host header and [:authority] do not matter. *)
+Theorem sni_decides : forall (ops : list op) (r : wreq) (s : bytes),
+  w_tls r = true -> w_sni r = Some s -> wire_route ops r = reference_general ops (Some s) None.
+Proof. exact wire_route_sni. Qed.
+
+(** Over TLS no request is answered with 409: the lookup that chose the certificate found a host, so
+    the lookup for the request finds one (refusals happen in the handshake). *)
+Theorem tls_never_409 : forall (auth_ok : bytes -> bool),
+  (forall h, auth_ok h = true -> is_text h) ->
+  forall (ops : list op) (c : collection) (st st' : nat -> hstate) (r : wreq),
+  build ops = Ok c -> wf_wreq r -> w_tls r = true ->
+  wire_request auth_ok fixed c st r <> Ok (st', W409).
+Proof. intros auth_ok Ha ops c st st' r. exact (wire_tls_no_409 auth_ok Ha ops c st r st'). Qed.
+
+(** A refused handshake changes no state. *)
+Theorem tls_refusal_changes_nothing : forall (auth_ok : bytes -> bool) (ops : list op) (c : collection)
+    (st : nat -> hstate) (r : wreq) (fx : fixes),
+  build ops = Ok c -> tls_refused ops r = true -> wire_request auth_ok fx c st r = Ok (st, WNoTls).
+Proof. exact wire_request_refused. Qed.
+
+(** What exactly [Authority::try_from] accepts makes no difference for the replies of the repaired code. *)
+Theorem authority_parser_irrelevant : forall (auth1 auth2 : bytes -> bool) (ops : list op) (c : collection)
+    (st : nat -> hstate) (r : wreq),
+  (forall h, auth1 h = true -> is_text h) -> (forall h, auth2 h = true -> is_text h) ->
+  build ops = Ok c -> wf_wreq r ->
+  wire_request auth1 fixed c st r = wire_request auth2 fixed c st r.
+Proof. exact wire_request_auth_irrelevant. Qed.
+
+(** Isolation on these histories (instance of [host_history_independence]): two histories with the same
+    requests for host [i] — whatever else is asked of the other hosts, for the same paths, over whichever
+    connections — give the same replies to them. *)
+Theorem wire_isolation : forall (ops : list op) (reqs reqs' : list wreq) (st st' : nat -> hstate) (i : nat),
+  st i = st' i ->
+  filter (wire_routed_to ops i) reqs = filter (wire_routed_to ops i) reqs' ->
+  wire_replies_for ops i reqs (wire_spec ops st reqs) = wire_replies_for ops i reqs' (wire_spec ops st' reqs').
+Proof. exact wire_isolation_lemma. Qed.
+
+(** Concurrent clients, every schedule: [m] is any interleaving of the requests of one client (tag [true]) with the
+    requests of all other clients (tag [false]).  If no request of the others is routed to a host that one of
+    the client's requests is routed to, the client receives exactly the replies it would receive alone. *)
+Theorem wire_concurrent_clients : forall (ops : list op) (m : list (bool * wreq)) (st st' : nat -> hstate),
+  (forall i, wire_touches ops (mine m) i = true -> wire_touches ops (others m) i = false) ->
+  (forall i, wire_touches ops (mine m) i = true -> st i = st' i) ->
+  tagged_replies m (wire_spec ops st (map snd m)) = wire_spec ops st' (mine m).
+Proof. exact concurrent_client. Qed.
+
+(** The code before the three repairs of this round violated the property (each witness is replayed on
+    the real code by the corpus; the last conjunct is the repaired code on the same witness). *)
+Theorem absent_host_refuted : forall auth_ok : bytes -> bool,
+  exists ops c r, build ops = Ok c /\
+    wire_history auth_ok snapshot c (fun _ => hstate0) [r] = [Ok WClosed] /\
+    wire_spec ops (fun _ => hstate0) [r] = [W409] /\
+    wire_history auth_ok fixed c (fun _ => hstate0) [r] = [Ok W409].
 Proof. exact absent_host_closed_refuted. Qed.
+
+Theorem bad_authority_refuted : forall auth_ok : bytes -> bool, auth_ok (B "a b") = false ->
+  exists ops c r, build ops = Ok c /\
+    wire_history auth_ok (mkFixes true false false) c (fun _ => hstate0) [r] = [Ok WClosed] /\
+    wire_spec ops (fun _ => hstate0) [r] = [W200 1 1] /\
+    wire_history auth_ok fixed c (fun _ => hstate0) [r] = [Ok (W200 1 1)].
+Proof. exact bad_authority_closed_refuted. Qed.
+
+Theorem h2_authority_refuted : forall auth_ok : bytes -> bool,
+  exists ops c r, build ops = Ok c /\
+    wire_history auth_ok (mkFixes true true false) c (fun _ => hstate0) [r] = [Ok (W200 1 1)] /\
+    wire_spec ops (fun _ => hstate0) [r] = [W200 0 1] /\
+    wire_history auth_ok fixed c (fun _ => hstate0) [r] = [Ok (W200 0 1)].
+Proof. exact h2_authority_ignored_refuted. Qed.
+
+(** Today's code, known class tls-handshake-refused: (a) unknown SNI, no default host: the handshake is
+    refused instead of a 409; (b) no SNI, no default host, loopback Host header: refused instead of the
+    first host. *)
+Theorem tls_handshake_refuted : forall auth_ok : bytes -> bool,
+  exists ops c ra rb, build ops = Ok c /\
+    tls_refused ops ra = true /\ tls_refused ops rb = true /\
+    wire_history auth_ok fixed c (fun _ => hstate0) [ra] = [Ok WNoTls] /\
+    wire_spec ops (fun _ => hstate0) [ra] = [W409] /\
+    wire_history auth_ok fixed c (fun _ => hstate0) [rb] = [Ok WNoTls] /\
+    wire_spec ops (fun _ => hstate0) [rb] = [W200 0 1].
+Proof. exact tls_handshake_refused_refuted. Qed.
+
+(** ---- the multi-host server over the real pipeline model (Model/HostsPipe.v) -----------------------
+    [prun cfgs (proute c) (ptargets c)] is the product of Model/Hosts.v instantiated with the model of
+    [kvarn::handle_cache] of C03/C04 (Model/CacheX.v: response cache, variants, lifetimes, conditional
+    requests, the fixture handlers with their invocation counters) as every host's [serve], the model of
+    [handle_connection]'s host choice as [route], and [Collection::clear_page(name, uri)] /
+    [clear_response_caches(filter)] / waits as further events.  For EVERY configuration the builder
+    accepts, EVERY assignment of pipeline configurations to the hosts, EVERY starting state and EVERY
+    history: the state of host [i] and the replies to the events that concern it are those of host [i]'s
+    own pipeline on the sub-history the SPECIFICATION assigns to it (reference resolver; the owner of the
+    name given to [clear_page]; for [clear_response_caches] the hosts reachable under their own name whose
+    name passes the filter).  Nothing another host was asked, and no clear aimed at another host, has any
+    effect on it. *)
+Theorem multi_host_pipeline_eq_projection : forall (ops : list Hosts.op) (c : collection) (cfgs : list configx)
+    (es : list pevent) (st : nat -> pstate) (i : nat),
+  build ops = Ok c -> Forall wf_pevent es ->
+  fst (prun cfgs (proute c) (ptargets c) st es) i
+  = fst (srun pstate preq prep padm (pserve cfgs) padmin i (st i)
+              (filter (concerns preq padm (spec_proute ops) (spec_ptargets ops) i) es)) /\
+  replies_for preq prep padm (spec_proute ops) (spec_ptargets ops) i es (snd (prun cfgs (proute c) (ptargets c) st es))
+  = snd (srun pstate preq prep padm (pserve cfgs) padmin i (st i)
+              (filter (concerns preq padm (spec_proute ops) (spec_ptargets ops) i) es)).
+Proof. exact pipeline_projection. Qed.
+
+(** The model of the code answers every such history exactly as the specification server does. *)
+Theorem multi_host_pipeline_eq_spec : forall (ops : list Hosts.op) (c : collection) (cfgs : list configx)
+    (es : list pevent) (st : nat -> pstate),
+  build ops = Ok c -> Forall wf_pevent es ->
+  snd (prun cfgs (proute c) (ptargets c) st es) = snd (prun cfgs (spec_proute ops) (spec_ptargets ops) st es).
+Proof. exact pipeline_eq_spec. Qed.
+
+(** Host [i] on its own is the single-host pipeline of C03/C04: its state after a sub-history is the
+    state [CacheX.runX_state] reaches with host [i]'s configuration on the same operations. *)
+Theorem host_alone_is_cache_pipeline : forall (cfgs : list configx) (i : nat) (es : list pevent) (s : statex (list N)) (now : N),
+  fst (srun pstate preq prep padm (pserve cfgs) padmin i (s, now) es)
+  = runX_state (list N)
+      (compute_x (cf_default_ext (cx_base (cfg_of cfgs i))) (cf_handlers (cx_base (cfg_of cfgs i))) (cx_xhandlers (cfg_of cfgs i)))
+      (cf_cache (cx_base (cfg_of cfgs i))) (cf_ims (cx_base (cfg_of cfgs i)))
+      (cx_fix_vary (cfg_of cfgs i)) (cx_fix_ovkey (cfg_of cfgs i)) (cx_fix_clear (cfg_of cfgs i)) (cx_fix_svary (cfg_of cfgs i))
+      (cx_fix_qmkey (cfg_of cfgs i)) (cx_fix_ims (cfg_of cfgs i))
+      (sfilter_fix (cx_sfilter (cfg_of cfgs i))) parse_ims_fix sanitize_ok_fix
+      (if cf_default_ext (cx_base (cfg_of cfgs i)) then uri_redirect else (fun r => r))
+      (override_x (cf_default_ext (cx_base (cfg_of cfgs i))) (cx_ovprime (cfg_of cfgs i)))
+      (fun _ _ => None)
+      (vary_tuple_x (cx_fix_ovkey (cfg_of cfgs i)) (cf_vary (cx_base (cfg_of cfgs i))))
+      (vary_header_x (cx_fix_ovkey (cfg_of cfgs i)) (cf_vary (cx_base (cfg_of cfgs i)))) clear_alias_fix
+      s now (map to_opx es).
+Proof. exact host_alone_is_cache_model. Qed.
+
+(** Which hosts [clear_response_caches(filter)] / [clear_file_caches(filter)] reach, and which host
+    [clear_page(name, ..)] / [clear_file(name, ..)] touch. *)
+Theorem clear_all_targets_eq : forall (ops : list Hosts.op) (c : collection) (flt : option bytes) (i : nat),
+  build ops = Ok c -> (In i (map hid (clear_all_targets c flt)) <-> cleared_by_all ops flt i = true).
+Proof. exact clear_all_targets_members. Qed.
+
+Theorem clear_page_target_eq : forall (ops : list Hosts.op) (c : collection) (name : bytes),
+  build ops = Ok c -> omap hid (clear_target V1 c name) = Ok (clear_reference ops name).
+Proof. exact clear_target_reference. Qed.
 
 (** ---- non-vacuity: concrete configurations meeting the hypotheses, on every branch ------- *)
 Definition ex_ops : list op :=
@@ -180,8 +327,32 @@ Example ex_frame :
   fst (rstep N unit (nat * N) serve route (0%nat, 0) (fun _ => 7) tt) 1%nat = 7 /\
   fst (rstep N unit (nat * N) serve route (0%nat, 0) (fun _ => 7) tt) 0%nat = 8.
 Proof. split; vm_compute; reflexivity. Qed.
-Example ex_conn_history :
-  conn_spec ex_ops_nodefault (fun _ => hstate0)
-    [([B "a.test"], B "/h/p"); ([B "b.test"], B "/h/p"); ([B "a.test"], B "/h/p"); ([B "zzz"], B "/h/p")]
-  = [W200 0 1; W200 1 1; W200 0 1; W409].
+Example ex_wire_history :
+  wire_spec ex_ops_nodefault (fun _ => hstate0)
+    [get1 TR_PLAIN None [B "a.test"] None; get1 TR_TLS1 (Some (B "b.test")) [B "a.test"] None;
+     get1 TR_H2 (Some (B "a.test")) [] (Some (B "b.test")); get1 TR_PLAIN None [B "zzz"] None;
+     mkW TR_PLAIN None false (B "POST") [B "a.test"] None (B "/h/page") 0;
+     mkW TR_PLAIN None false s_GET [B "a.test"] None (B "/h/page?x") 2]
+  = [W200 0 1; W200 1 1; W200 0 1; W409; W200 0 2; W304].
 Proof. vm_compute. reflexivity. Qed.
+(** the hypotheses of [wire_histories_eq_spec] are met by a history with TLS and HTTP/2 requests *)
+Example ex_wire_hypotheses :
+  Forall (fun r => wf_wreq r /\ tls_refused ex_ops_nodefault r = false)
+    [get1 TR_TLS1 (Some (B "b.test")) [B "a.test"] None; get1 TR_H2 (Some (B "a.test")) [] (Some (B "b.test"))]
+  /\ (forall h, auth_ok_http h = true -> is_text h).
+Proof.
+  split.
+  - repeat constructor; try (vm_compute; reflexivity); intros a Ht Ha; inversion Ha; subst; vm_compute; reflexivity.
+  - apply auth_ok_http_text.
+Qed.
+(** two hosts with the same counting handler on the same path: each counts for itself; the filtered clear
+    empties only a.test's cache, [clear_page] only b.test's *)
+Example ex_pipeline :
+  exists c, build ex_pops = Ok c /\ Forall wf_pevent ex_history /\
+  map (fun o => match o with
+                | Some (PObs i (XbReply rp _)) => Some (i, rx_body rp)
+                | _ => None end)
+      (snd (prun [ex_cx; ex_cx] (proute c) (ptargets c) (fun _ => cfg_state0 ex_cx) ex_history))
+  = [Some (0%nat, B "n=1"); Some (1%nat, B "n=1"); Some (0%nat, B "n=1"); None;
+     Some (0%nat, B "n=2"); Some (1%nat, B "n=1"); None; Some (1%nat, B "n=2")].
+Proof. eexists. split; [vm_compute; reflexivity|]. split; [repeat constructor; vm_compute; reflexivity | vm_compute; reflexivity]. Qed.
